@@ -63,6 +63,11 @@ fn nt_mode(kind: &str, s: &str) -> String {
         },
         "lex" => [s0, p0, lit_dt(s, "http://www.w3.org/2001/XMLSchema#string")],
         "lexdt" => [s0, p0, lit_dt(s, "http://example.org/dt")],
+        // ill-typed literals are legal RDF: escaping must not depend on the datatype
+        "lexint" => [s0, p0, lit_dt(s, "http://www.w3.org/2001/XMLSchema#integer")],
+        "lexbool" => [s0, p0, lit_dt(s, "http://www.w3.org/2001/XMLSchema#boolean")],
+        "lexdouble" => [s0, p0, lit_dt(s, "http://www.w3.org/2001/XMLSchema#double")],
+        "lexdecimal" => [s0, p0, lit_dt(s, "http://www.w3.org/2001/XMLSchema#decimal")],
         "gname" => match Iri::new(s.to_string()) {
             Ok(_) => {
                 gname = Some(iri(s));
